@@ -62,6 +62,8 @@ def h_connection_end(S, B):
     hook_raises = S.flag("disconnect_hook_raises")
     n_tracked = S.choice("tracked_resources", [0, 1, 2, 4])
     shutdown_fails = S.flag("peer_reset_so_shutdown_fails")
+    n_streams = S.choice("open_item_streams_of_this_connection", [0, 2])
+    config.ITER_STREAM_LINGER = S.choice("ITER_STREAM_LINGER", [0, 30.0]) if n_streams else 30.0
     daemon = rig.make_daemon()
     daemon.objectsById["obj"] = Target()
     daemon.objectsById["sess"] = SessionThing
@@ -99,6 +101,7 @@ def h_connection_end(S, B):
     resB = Resource("B")
     connB.tracked_resources.add(resB)
     connB.pyroInstances[SessionThing] = SessionThing()
+    daemon.streaming_responses["streamB"] = (connB, 900.0, 0, iter([7]))
     resources = []
     untracked = Resource("untracked")
 
@@ -108,6 +111,8 @@ def h_connection_end(S, B):
             r = Resource("r%d" % i, faulty=(i % 2 == 1))
             resources.append(r)
             conn.tracked_resources.add(r)
+        for i in range(n_streams):
+            daemon.streaming_responses["streamA%d" % i] = (conn, 900.0, 0, iter([1, 2, 3]))
         current_context.client = conn
         current_context.track_resource(untracked)
         current_context.untrack_resource(untracked)
@@ -156,6 +161,16 @@ def h_connection_end(S, B):
     for r in resources:
         S.check("tracked-resource-closed-exactly-once", r.closes == 1)
     S.check("untracked-resource-not-closed", untracked.closes == 0)
+    # item streams the ended connection had open: forgotten at once without a linger period, kept ownerless with one
+    mine = [k for k in daemon.streaming_responses if k.startswith("streamA")]
+    if n_streams:
+        S.cover("ended-with-open-streams")
+        if config.ITER_STREAM_LINGER > 0:
+            S.check("open-streams-linger-ownerless", len(mine) == n_streams and all(daemon.streaming_responses[k][0] is None for k in mine))
+        else:
+            S.check("open-streams-are-forgotten", mine == [])
+    sb = daemon.streaming_responses.get("streamB")
+    S.check("other-connection-stream-untouched", sb is not None and sb[0] is connB and sb[2] == 0)
     S.check("other-connection-resource-untouched", resB.closes == 0)
     S.check("other-connection-socket-open", sockB.closed == 0)
     S.check("other-connection-keeps-its-session", len(connB.pyroInstances) == 1)
@@ -174,10 +189,10 @@ STUBS = rig.STUBS
 
 SPECS = [
     Spec("connection_end", h_connection_end, {"quick": {}, "thorough": {}},
-         covers=["ended:" + e for e in ENDINGS] + ["check:tracked-resource-closed-exactly-once",
+         covers=["ended:" + e for e in ENDINGS] + ["ended-with-open-streams", "check:tracked-resource-closed-exactly-once",
                                                     "check:disconnect-hook-called-exactly-once"],
          native_patch=env.native_env, reset=_reset,
-         desc="an established connection (0/1 requests served, 0..4 tracked resources incl. failing ones, a session instance) ends in one of 7 ways (cut at every byte offset 1..47, 40 arbitrary garbage bytes, ...), thread job and multiplex event path, raising disconnect hook, failing shutdown; a second connection stays open"),
+         desc="an established connection (0/1 requests served, 0..4 tracked resources incl. failing ones, a session instance, 0 or 2 open item streams with and without a linger period) ends in one of 7 ways (cut at every byte offset 1..47, 40 arbitrary garbage bytes, ...), thread job and multiplex event path, raising disconnect hook, failing shutdown; a second connection stays open"),
 ]
 
 
